@@ -467,7 +467,31 @@ func TestC01Network(t *testing.T) {
 			d, _ := fr.FrameDataWithMargins(0, 0)
 			data := append([]byte(nil), d...)
 			fr.ReturnToPool()
-			res := vn.Inject(V, lV, data)
+			var res vnet.Result
+			if c.Chance("ping.two-copies-at-once", 1, 3) {
+				// The ping reaches the router twice at the same moment (two links, two
+				// workers), one worker held at a generated point: the verdict about
+				// the identity must be the same, and nothing may crash.
+				if at := core.OneOf(c, "ping.point", "", "storage.GetRouter", "storage.SaveRouter", "instance.Identity", "instance.State"); at == "" {
+					V.Gate.Arm(c.Int("ping.any-call", 0, 10))
+				} else {
+					V.Gate.ArmAt(at, c.Int("ping.call", 0, 3))
+				}
+				var ok bool
+				res, _, ok = vn.InjectPar(V, []*vnet.VLink{lV, lV}, [][]byte{data, append([]byte(nil), data...)})
+				if !ok {
+					c.Class("inconclusive-workers-did-not-finish")
+					return
+				}
+				if res.Panicked {
+					c.Fatalf("first-contact ping with %s, two copies handled at once (held at %q: %s), panicked the router: %v", what, V.Gate.Point, V.Gate.Stack, vn.Panics)
+				}
+				// one of the two copies is a duplicate: accepted if any copy was processed
+				res.RouterErrs = res.RouterErrs[:max(0, len(res.RouterErrs)-1)]
+				c.Class("ping-header-two-copies-at-once")
+			} else {
+				res = vn.Inject(V, lV, data)
+			}
 			if res.Panicked {
 				c.Fatalf("first-contact ping with %s panicked the router: %v", what, vn.Panics)
 			}
